@@ -163,3 +163,27 @@ func VerifC10_RestartAfterFailedLoad() {
 	verifrt.Assert(err != nil || st == nil || st.Revoked, "strict: still denied after a restart when the CRL was never successfully loaded")
 	verifrt.DropSpawned()
 }
+
+// VerifC10_FirstLoadFault: disk storage, strict mode, a good server, and one injected storage fault
+// at ANY effect of the first load (staging store, inserts, swap). Whatever fails: a strict handshake
+// is accepted only if the downloaded list really is in force (its entries are honoured).
+func VerifC10_FirstLoadFault() {
+	fetch := config.CRLFetchMode(verifrt.Choose(2))
+	c := newChecker(true, fetch, true, config.SignatureValidationModeVerify)
+	listedSerial, probe := sym("listed"), sym("probe")
+	verifrt.Assume(probe.Cmp(listedSerial) != 0)
+	crlrepository.VerifSetServer(urlA, true, crlrepository.VerifNewCRL("pub", "CN=I1", listedSerial))
+	verifrt.FaultBudget = 1
+	verifrt.CloseFaults = true
+	cert := crlrepository.VerifCert("CN=I1", probe, urlA)
+	st, err := c.IsRevoked(cert, chainFor(cert))
+	verifrt.RunSpawned()
+	verifrt.FaultBudget = 0
+	// a second handshake (the fault is over), with the revoked certificate this time
+	bad := crlrepository.VerifCert("CN=I1", listedSerial, urlA)
+	st2, err2 := c.IsRevoked(bad, chainFor(bad))
+	verifrt.Reach("after-fault")
+	verifrt.Assert(err2 != nil || (st2 != nil && st2.Revoked), "strict: a certificate listed by the distribution-point CRL is never accepted, whatever failed during the first load")
+	_, _ = st, err
+	verifrt.DropSpawned()
+}
